@@ -8,7 +8,9 @@ CONSTANTS TolAng,    \* mask independence ("round-off"): units of 3.6e-14 degree
           TolArea,   \* units of 1e-16 of the ellipsoid's area
           AccLat,    \* documented accuracy of two direct solutions (2 x 40 nm) in units of 1e-16 degree
           AccLon,    \* the same in units of 3.6e-14 degree (longitude residuals are scaled by cos(lat))
-          AccLen     \* the same in units of 1e-16 a
+          AccLen,    \* the same in units of 1e-16 a
+          ClairautMin, \* guard of the turns law: |sin azi1| cos lat1 (units of 1e-9) at least this, i.e. the geodesic keeps away from the poles
+          TolTurn    \* turns law (decides the multiple of 360 degrees only): units of 1e-9 degree
 VARIABLE l
 
 PosOK(r) ==
@@ -32,14 +34,62 @@ ValOK(r) ==
      /\ r.ad[1] <= AccLat /\ r.ad[2] <= AccLon /\ r.ad[3] <= AccLon
      /\ r.tp[1] <= AccLat /\ r.tp[2] <= AccLon /\ r.tp[3] <= AccLat /\ r.tp[4] <= AccLon
      /\ r.tp[5] <= AccLen
+     \* LONG_UNROLL ("unroll lon2 instead of wrapping it into [-180, 180]"): the unrolled longitude wraps to the longitude obtained
+     \* WITHOUT the bit (u[1] line, u[2] GenDirect; round-off), and lon2 - lon1 is the change of longitude accumulated along the
+     \* geodesic ("how many times and in what sense the geodesic encircles the ellipsoid"; u[3], u[4]).  The accumulated change is
+     \* well defined only when no sub-step passes close to a pole: guard on the Clairaut constant of the INPUT.
+     /\ r.u[1] <= TolAng /\ r.u[2] <= TolAng
+     /\ (r.cl >= ClairautMin => r.u[3] <= TolTurn /\ r.u[4] <= TolTurn)
+     \* InverseLine through point 1 and the point just computed: Position(Distance()) and ArcPosition(Arc()) reproduce point 2
+     \* (an inverse and a direct solution, documented accuracy each); Distance(), Arc(), Azimuth() are s12, a12, azi1 of Inverse
+     /\ r.tpi[1] <= AccLat /\ r.tpi[2] <= AccLon /\ r.tpi[3] <= AccLat /\ r.tpi[4] <= AccLon
+     /\ r.tpi[5] <= AccLen /\ r.tpi[6] <= TolAng /\ r.tpi[7] <= TolAng
+     \* every constructor echoes point 1: Latitude(), Longitude(), Azimuth()
+     /\ \A i \in 1..8 : r.echo[i] <= TolAng
+
+\* inverse problem: d = <<s12, azi1, azi2, m12, M12, M21, S12>> against the call with mask ALL
+TolInv(i) == CASE i \in {2, 3} -> TolAng [] i \in {1, 4} -> TolLen [] i \in {5, 6} -> TolScale [] OTHER -> TolArea
+InvOK(r) ==
+  /\ r.ret /\ Set(r.w) = GenInverseWritten(Set(r.om)) /\ r.pairok
+  /\ \A i \in 1..7 : r.d[i] <= TolInv(i)
+  /\ r.dret <= TolAng
+\* rhumb inverse: d = <<s12, azi12, S12>>
+RInvOK(w, d, om) ==
+  /\ Set(w) = RhumbInverseWritten(Set(om))
+  /\ d[1] <= TolLen /\ d[2] <= TolAng /\ d[3] <= TolArea
+\* rhumb direct / RhumbLine: d = <<lat2, lon2 (modulo 360), S12>> against Rhumb::GenDirect with mask ALL.  The round-off of an
+\* unrolled longitude is relative to its size (turns = circles swept + 1).  Leaving a pole (ps, from the INPUT latitude) the
+\* longitude and the area of the spiral are indeterminate (NaN or infinite, rule PoleStartIndeterminate of RhumbLattice.tla):
+\* only the written set and the latitude are judged there.
+RDirOK(w, d, r) ==
+  /\ Set(w) = RhumbDirectWritten(Set(r.om))
+  /\ d[1] <= TolAng
+  /\ (~r.ps => d[2] <= TolAng * r.turns /\ d[3] <= TolArea)
+RValOK(r) ==
+  /\ r.turns >= 1
+  /\ RDirOK(r.wd, r.dd, r) /\ RDirOK(r.wl, r.dl, r) /\ RInvOK(r.wi, r.di, r.om)
+  \* mask ALL with and without LONG_UNROLL
+  /\ r.ru[1] <= TolAng /\ (~r.ps => r.ru[2] <= TolAng * r.turns /\ r.ru[3] <= TolArea)
+\* inline overloads: every output argument of overload (fam, n) is written (a line: if it has the capability and can locate the
+\* point) with the value of the general routine; d as in val, da = azi1 of the inverse problem
+OvOK(r) ==
+  LET exp == OverloadWritten(r.fam, r.n, Set(r.caps)) IN
+  /\ r.known /\ r.fam \in OvFamilies /\ r.n \in OvArities(r.fam)
+  /\ (OvReturns(r.fam) => r.ret = exp[1])
+  /\ Set(r.w) = exp[2] /\ r.pairok
+  /\ \A i \in 1..8 : r.d[i] <= Tol(i)
+  /\ r.da <= TolAng /\ r.dret <= TolAng
 
 Obligation(r) ==
   CASE r.e = "pos" -> PosOK(r)
     [] r.e = "gd" -> r.ret /\ Set(r.w) = GenDirectWritten(Set(r.om)) /\ r.pairok
-    [] r.e = "gi" -> r.ret /\ Set(r.w) = GenInverseWritten(Set(r.om)) /\ r.pairok
+    [] r.e = "gi" -> InvOK(r)
+    [] r.e = "inv" -> InvOK(r)
+    [] r.e = "rval" -> RValOK(r)
+    [] r.e = "ov" -> OvOK(r)
     [] r.e = "rd" -> Set(r.w) = RhumbDirectWritten(Set(r.om))
     [] r.e = "rl" -> Set(r.w) = RhumbDirectWritten(Set(r.om))
-    [] r.e = "ri" -> Set(r.w) = RhumbInverseWritten(Set(r.om))
+    [] r.e = "ri" -> RInvOK(r.w, r.d, r.om)
     [] r.e = "uninit" -> ~r.ret0 /\ r.w0 = 0 /\ ~r.ret1 /\ r.w1 = 0 /\ ~r.init
     [] r.e = "val" -> ValOK(r)
     [] OTHER -> FALSE
@@ -47,6 +97,7 @@ Obligation(r) ==
 Expected(r) ==
   CASE r.e = "pos" -> LET caps == CapsOf(r.ctor, Set(r.caps)) IN <<Num(caps), Third(r.ctor, caps, r.so), Position(caps, r.am, Set(r.om))>>
     [] r.e = "val" -> Position(CapsOf("line", Set(r.caps)), r.am, Set(r.om))
+    [] r.e = "ov" -> IF r.fam \in OvFamilies /\ r.n \in OvArities(r.fam) THEN OverloadWritten(r.fam, r.n, Set(r.caps)) ELSE <<>>
     [] OTHER -> <<>>
 
 Init == l = 1 /\ KitInit
